@@ -6,7 +6,7 @@ sys.path.insert(0, os.path.dirname(os.path.abspath(__file__)))
 import matrix_par
 jobs = []
 for d in sys.argv[1:]:
-    for p in sorted(glob.glob(os.path.join(d, "[mb]*", "patch.diff"))):
+    for p in sorted(glob.glob(os.path.join(d, "[mbR]*", "patch.diff"))):
         pp = os.path.join(os.path.dirname(p), "patch_rebased.diff")
         jobs.append(("seeded", os.path.basename(d.rstrip("/")) + "/" + os.path.basename(os.path.dirname(p)), pp if os.path.exists(pp) else p))
 with ProcessPoolExecutor(max_workers=min(16, max(1, len(jobs)))) as ex:
